@@ -404,8 +404,11 @@ def check(run):
                 variants_kw.append(("f", kw, v))
         variants_kw.append(("base", "", ""))
         if quick:
-            r.shuffle(variants_kw)
-            variants_kw = variants_kw[:28] + [("base", "", "")]
+            # the values at which the guards decide (0, -1, keyword absent) always; a random dozen of the others
+            must = [t for t in variants_kw if t[0] == "base" or t[0] == "f" or (t[0] == "s" and t[2] in ("0", "-1", "-")) or (t[0] == "l" and t[2] in ("-", "1", ""))]
+            rest = [t for t in variants_kw if t not in must]
+            r.shuffle(rest)
+            variants_kw = must + rest[:10]
         for typ, kw, v in variants_kw:
             sc_, li_, fl_ = dict(sc0), dict(li0), dict(fl0)
             if typ == "s" and kind == "walls" and kw == "forceConstant" and v == "1e-300":
@@ -438,7 +441,7 @@ def check(run):
     for k, c in enumerate(vd_cases):
         sc = T.scenario(c[5], 3, nsteps=4)
         for var in variants:
-            if var == "asan" and quick and k % 5 != run.seed % 5:
+            if var == "asan" and quick and k % 6 != run.seed % 6:
                 continue
             vdjobs.append(((k, var), plain if var == "plain" else asan, sc, os.path.join(W, "vd", var, str(k)), var, 20 if var == "plain" else 60))
     vdres = L.run_many(vdjobs)
